@@ -48,32 +48,32 @@ def sourcePathMap (d : DepInfo) (lp : Option Str) (iv : Bool) : PathMap :=
 def urlOf (d : DepInfo) (lp : Option Str) (iv : Bool) (p : Str) : Str :=
   posixJoin (sourcePathMap d lp iv).href (quote p)
 
-def kSrc : Str := ['s', 'r', 'c']
-def kHref : Str := ['h', 'r', 'e', 'f']
-def kRel : Str := ['r', 'e', 'l']
+def dtKSrc : Str := ['s', 'r', 'c']
+def dtKHref : Str := ['h', 'r', 'e', 'f']
+def dtKRel : Str := ['r', 'e', 'l']
 def vStylesheet : Str := ['s', 't', 'y', 'l', 'e', 's', 'h', 'e', 'e', 't']
 
 /-- the `for s in stylesheets:` loop of `as_dict`; `s["href"]` raises KeyError when absent -/
 def asDictSheets (base : Str) : List KVs → Except Err (List KVs)
   | [] => .ok []
   | s :: r =>
-    match alookup kHref s with
+    match alookup dtKHref s with
     | none => .error .keyError
     | some p =>
       match asDictSheets base r with
       | .error e => .error e
-      | .ok r' => .ok (kvSet kRel vStylesheet (kvSet kHref (posixJoin base (quote p)) s) :: r')
+      | .ok r' => .ok (kvSet dtKRel vStylesheet (kvSet dtKHref (posixJoin base (quote p)) s) :: r')
 
 /-- the `for s in scripts:` loop of `as_dict` -/
 def asDictScripts (base : Str) : List KVs → Except Err (List KVs)
   | [] => .ok []
   | s :: r =>
-    match alookup kSrc s with
+    match alookup dtKSrc s with
     | none => .error .keyError
     | some p =>
       match asDictScripts base r with
       | .error e => .error e
-      | .ok r' => .ok (kvSet kSrc (posixJoin base (quote p)) s :: r')
+      | .ok r' => .ok (kvSet dtKSrc (posixJoin base (quote p)) s :: r')
 
 /-- the fields of `as_dict()`'s result that depend on anything (name / version / meta are copied) -/
 structure DepDict where
